@@ -6,17 +6,17 @@ EXTENDS TV_Core, TLC, Json, IOUtils
 
 Events == ndJsonDeserialize(IOEnv.TRACE_FILE)
 
-VARIABLES l, nbad
+VARIABLES l, nbad, canon
 
 Verdict(e) ==
   CASE e.fn = "crc" -> V_crc(e)
     [] e.fn = "crc_legacy" -> V_crc(e)
-    [] e.fn = "icao" -> V_icao(e)
-    [] e.fn = "adsb.icao" -> V_icao(e)
+    [] e.fn = "icao" -> V_icao_rel(e, canon)
+    [] e.fn = "adsb.icao" -> V_icao_rel(e, canon)
     [] e.fn = "allcall.icao" -> V_allcall_icao(e)
     [] OTHER -> "unknown_fn"
 
-Init == l = 1 /\ nbad = 0 /\ TLCSet(1, 0)
+Init == l = 1 /\ nbad = 0 /\ canon = <<>> /\ TLCSet(1, 0)
 
 Next ==
   /\ l <= Len(Events)
@@ -25,6 +25,7 @@ Next ==
      IN  /\ (IF v = "ok" THEN TRUE ELSE PrintT(<<"REJECT", e.id, v>>) /\ TLCSet(1, TLCGet(1) + 1))
          /\ nbad' = IF v = "ok" THEN nbad ELSE nbad + 1
   /\ l' = l + 1
+  /\ canon' = IF Events[l].fn \in {"icao", "adsb.icao"} THEN CanonNext(Events[l], canon) ELSE canon
 
 \* acceptance: every line consumed (diameter - 1 = number of events)
 Done == PrintT(<<"DONE", Len(Events), TLCGet("stats").diameter, TLCGet(1)>>)
